@@ -327,7 +327,7 @@ def run_reader_empty(case, ctx):
     f = ap.TableReader(io.StringIO(case["text"]))
     vals = [f(q) for q in (0.0, 1.0, -3.5, 1e9)]
     ctx.count("reader_points", len(vals))
-    out = io.StringIO()
+    out = routes.text_sink()
     ap.plotToFile(out, 0.0, 2.0, f, 4)
     rowsw = [l.split() for l in out.getvalue().splitlines() if l.strip()]
     vals += [float(r_[1]) for r_ in rowsw]
@@ -354,11 +354,11 @@ def run_plot(case, ctx):
   tmp = None
   try:
     if which == 0:
-      out = io.StringIO()
+      out = routes.text_sink()
       ap.plotToFile(out, lo, hi, fn, steps)
       text = out.getvalue()
     elif which == 2:
-      out = io.StringIO()
+      out = routes.text_sink()
       ap.plotPotentialObjectToFile(out, lo, hi, ap.Potential("A", "B", fn), steps)
       text = out.getvalue()
     else:
